@@ -21,6 +21,7 @@ import (
 	"os"
 	"path/filepath"
 	"sort"
+	"strconv"
 	"strings"
 	"sync"
 	"sync/atomic"
@@ -416,6 +417,7 @@ type run struct {
 	subnet  string
 	autoSeq int
 	gated   map[string]*gatedAdd
+	volBlocksNow int64
 }
 
 type gatedAdd struct {
@@ -514,6 +516,7 @@ type NodeState struct {
 	SnapAt     map[string][]int    `json:"snapat"` // user snapshot -> write ids in its image
 	User       map[string]bool     `json:"user"`
 	Touched    map[string]int      `json:"touched"`
+	Size       int64               `json:"size"` // volume size in 4 KiB blocks (raw volume.meta)
 	Image      []int               `json:"-"`
 }
 
@@ -567,6 +570,7 @@ func (r *run) nodeState(n *node) NodeState {
 		os.Exit(2)
 	}
 	st.Rev = d.Rev
+	st.Size = d.SizeBlocks
 	st.Rebuilding = d.Rebuilding
 	st.CP = strings.TrimPrefix(d.Checkpoint, "s-")
 	for cur := d.Files[d.Head]; cur != nil && cur.Parent != ""; cur = d.Files[cur.Parent] {
@@ -780,6 +784,13 @@ func (r *run) exec1(op Op) {
 		err := c.RegisterReplica(types.RegReplica{Address: n.ip, UUID: n.uuid, RevCount: rev, RepType: "Backend", RepState: string(state), UpTime: time.Second})
 		res, et := resOf(err)
 		r.emit("Register", map[string]interface{}{"a": op.A, "rev": rev, "st": string(state), "sf": op.Sf, "af": op.Af}, res, et, nil)
+	case "RegisterQuorum":
+		// a quorum-type replica (no data) registers: recorded by the controller, it neither counts
+		// towards the majority of data replicas nor takes part in the election
+		err := c.RegisterReplica(types.RegReplica{Address: r.subnet + ".99", UUID: "quorum-uuid", RevCount: 0,
+			RepType: "quorum", RepState: "closed", UpTime: time.Second})
+		res, et := resOf(err)
+		r.emit("RegisterQuorum", map[string]interface{}{}, res, et, nil)
 	case "Start":
 		n := r.node(op.A)
 		if op.Cf {
@@ -826,10 +837,51 @@ func (r *run) exec1(op Op) {
 		} else {
 			r.emit("Add", map[string]interface{}{"a": op.A, "cf": op.Cf, "S": strs(op.F), "name": name}, res, et, nil)
 		}
+	case "Resize":
+		// grow the volume by one block through the controller; F = replicas whose own resize fails.
+		// Afterwards every replica the controller did not reach (failed, ERR, detached, closed) is
+		// grown directly: replicas of one volume are provisioned alike (environment).
+		r.volBlocksNow++
+		nb := r.volBlocksNow
+		sz := strconv.FormatInt(nb*rawfs.BlockSize, 10)
+		r.arm(op.F, "rest:resize", "err")
+		err := c.Resize("vol", sz)
+		r.disarm()
+		res, et := resOf(err)
+		if err != nil {
+			r.volBlocksNow--
+		} else {
+			for _, nm := range r.names {
+				n := r.node(nm)
+				mode, member := r.members()[nm]
+				if member && (mode == "RW" || mode == "WO") {
+					armed := false
+					for _, f := range op.F {
+						armed = armed || f == nm
+					}
+					if !armed {
+						continue // the controller's business: judged by the rule SizesAgree
+					}
+				}
+				if d, derr := rawfs.Scan(n.dir); derr == nil && d.SizeBlocks >= nb {
+					continue
+				}
+				if n.s.Replica() != nil {
+					n.s.Resize(sz)
+				} else {
+					tmp := replica.NewServer(n.ip+":9502", n.dir, 512, "Backend")
+					if tmp.Open() == nil {
+						tmp.Resize(sz)
+						tmp.Close()
+					}
+				}
+			}
+		}
+		r.emit("Resize", map[string]interface{}{"nb": nb, "F": strs(op.F)}, res, et, nil)
 	case "WriteOOB", "ReadOOB":
 		// I/O that does not lie inside [0, volume size): refused by the controller before any
 		// replica is touched.  op.Kind: beyond | straddle | negative
-		size := int64(volBlocks) * rawfs.BlockSize
+		size := r.volBlocksNow * rawfs.BlockSize
 		off := size
 		switch op.Kind {
 		case "straddle":
@@ -861,7 +913,7 @@ func (r *run) exec1(op Op) {
 		}
 		td := r.touchedData()
 		r.emit(ev, map[string]interface{}{"A": []string{}, "w": 0, "mode": "err", "oob": op.Kind}, res, et,
-			map[string]interface{}{"touched": td, "T": []string{}, "served": "", "out": []int{}})
+			map[string]interface{}{"touched": td, "T": []string{}, "served": "", "out": []int{}, "shortnil": false})
 	case "SnapRace":
 		// a volume snapshot contending with K foreground writes (all started behind the held
 		// controller lock): a write is before the snapshot iff some replica's snapshot image
@@ -1352,7 +1404,10 @@ func (r *run) exec1(op Op) {
 		r.arm(op.F, "read", mode)
 		buf := make([]byte, volBlocks*rawfs.BlockSize)
 		n, err := c.ReadAt(buf, 0)
+		shortNil := false
 		if err == nil && n != len(buf) {
+			// "success" without the data: neither served nor reported as failed
+			shortNil = true
 			err = fmt.Errorf("short read %d", n)
 		}
 		res, et := resOf(err)
@@ -1380,7 +1435,7 @@ func (r *run) exec1(op Op) {
 		r.disarm()
 		r.afterTransportFault(mode, op.F, td)
 		r.emit("Read", map[string]interface{}{"A": strs(op.F), "mode": mode}, res, et,
-			map[string]interface{}{"touched": td, "T": tried, "served": served, "out": out})
+			map[string]interface{}{"touched": td, "T": tried, "served": served, "out": out, "shortnil": shortNil})
 	case "Snapshot":
 		r.arm(op.F, "rest:snapshot", "err")
 		_, err := c.Snapshot(op.Name)
@@ -1533,6 +1588,7 @@ func (r *run) setup() error {
 		controller.WithBackend(r.fac), controller.WithRF(r.sc.RF))
 	r.seq = 0
 	r.nextW = 0
+	r.volBlocksNow = volBlocks
 	stride = 8
 	if r.sc.Dense {
 		stride = 1
@@ -1621,6 +1677,54 @@ func (r *run) generate(n int, profile string) {
 		return "err"
 	}
 	snapN := 0
+	if profile == "ctlresize" {
+		// C16, controller part: grow with every replica RW, with one replica failing its resize,
+		// and during a rebuild (before and after the joiner is flagged rebuilding)
+		for _, nm := range r.names[:r.sc.RF] {
+			do(Op{Ev: "Register", A: nm})
+		}
+		if !r.c.StartSignalled {
+			return
+		}
+		first := r.nameOf(r.c.MaxRevReplica)
+		do(Op{Ev: "Start", A: first})
+		do(Op{Ev: "Write"})
+		do(Op{Ev: "Resize"})
+		var rest []string
+		for _, nm := range r.names[:r.sc.RF] {
+			if nm != first {
+				rest = append(rest, nm)
+			}
+		}
+		for i, nm := range rest {
+			do(Op{Ev: "Add", A: nm})
+			if rng.Intn(2) == 0 {
+				do(Op{Ev: "Resize"}) // joiner WO, not yet flagged rebuilding: grown with the others
+			}
+			do(Op{Ev: "RebuildCopy", A: nm, Src: first})
+			if i == 0 && rng.Intn(3) == 0 {
+				do(Op{Ev: "Resize"}) // joiner flagged rebuilding: refuses, is marked ERR
+				do(Op{Ev: "MonitorRun", A: nm})
+				do(Op{Ev: "ReplicaRestart", A: nm})
+				do(Op{Ev: "Add", A: nm})
+				do(Op{Ev: "RebuildCopy", A: nm, Src: first})
+			}
+			do(Op{Ev: "Verify", A: nm})
+			do(Op{Ev: "Write"})
+		}
+		do(Op{Ev: "Resize"})
+		if len(rest) > 0 && rng.Intn(2) == 0 {
+			do(Op{Ev: "Resize", F: []string{rest[rng.Intn(len(rest))]}})
+		}
+		do(Op{Ev: "WriteOOB", Kind: "beyond"})
+		do(Op{Ev: "Read"})
+		do(Op{Ev: "Write"})
+		for _, nm := range r.pendingMonitors() {
+			do(Op{Ev: "MonitorRun", A: nm})
+		}
+		do(Op{Ev: "Read"})
+		return
+	}
 	if profile == "oob" {
 		// C01, controller part: I/O outside [0, volume size) in every membership the bootstrap
 		// passes through (no replica yet, one RW, RW + WO, all RW, read-only)
@@ -1735,6 +1839,9 @@ func (r *run) generate(n int, profile string) {
 		}
 		do(Op{Ev: "Read"})
 		return
+	}
+	if profile == "bootstrap" && rng.Intn(3) == 0 {
+		do(Op{Ev: "RegisterQuorum"})
 	}
 	if profile == "bootstrap" || rng.Intn(4) == 0 {
 		for _, nm := range r.names {
@@ -1940,6 +2047,13 @@ func (r *run) generate(n int, profile string) {
 		case k < 86:
 			a := r.names[rng.Intn(len(r.names))]
 			do(Op{Ev: "Remove", A: a})
+		case k < 90 && len(rws) > 0 && len(r.gated) == 0 && rng.Intn(3) == 0:
+			// grow the volume; possibly one replica (never the last RW one) fails its own resize
+			var f []string
+			if len(rws) > 1 && rng.Intn(3) == 0 {
+				f = []string{rws[rng.Intn(len(rws)-1)]}
+			}
+			do(Op{Ev: "Resize", F: f})
 		case k < 90:
 			do(Op{Ev: "SetMode", A: all[rng.Intn(len(all))], Mode: "ERR"})
 		case k < 95:
